@@ -24,3 +24,7 @@ let nat_of_int n =
 let int_of_nat (n : nat) =
   let rec go acc n = match n with O -> acc | S m -> go (acc + 1) m in
   go 0 n
+let string_of_z z = Big_int_Z.string_of_big_int z
+let z_of_string s = Big_int_Z.big_int_of_string s
+let string_of_pos = string_of_z
+let pos_of_string = z_of_string
